@@ -15,16 +15,15 @@ DInit == cid \in 1..Len(Cases) /\ k = 0
 Case  == Cases[cid]
 TreeOf(c) == c.tree
 
-Why == LET c == Case
-           w == DotWhy(c.tree, c.status, c.obs)
-       IN IF w # "" THEN w ELSE ListWhy(c.tree, c.lst)
+DotPart == IF Case.listonly THEN "" ELSE DotWhy(Case.tree, Case.status, Case.obs)
+Why == IF DotPart # "" THEN DotPart ELSE ListWhy(Case.tree, Case.lst)
 
 DNext == k = 0 /\ Why = "" /\ k' = 1 /\ UNCHANGED cid
 DSpec == DInit /\ [][DNext]_dvars
 
 Report == IF k = 1 THEN PrintT(<<"ACC", cid>>)
           ELSE IF Why # "" THEN PrintT("AT|" \o ToString(cid) \o "|1|"
-                                        \o (IF DotWhy(Case.tree, Case.status, Case.obs) # "" THEN "dot" ELSE "list")
+                                        \o (IF DotPart # "" THEN "dot" ELSE "list")
                                         \o "|" \o Why)
           ELSE TRUE
 =============================================================================
